@@ -293,6 +293,38 @@ func structurePrograms() []prog {
 		top.Add(&idl.Struct{Cat: "struct", Name: "TS", Fields: []*idl.Field{fld(1, "a", i32)}})
 		out = append(out, prog{"structure:dag", "unused-include-r", &idl.Program{Files: []*idl.File{top, u}}, true})
 	}
+	// a file whose only content is a service that extends another and adds nothing
+	{
+		bf := mkf("eb.thrift", "only.base")
+		bsv := &idl.Service{Name: "EB", Functions: []*idl.Function{{Name: "f", Ret: i32}}}
+		bf.Add(bsv)
+		of := mkf("onlyext.thrift", "only.ext")
+		of.Includes = []*idl.Include{{Path: "eb.thrift", File: bf}}
+		of.Add(&idl.Service{Name: "OnlyExt", Extends: bsv})
+		out = append(out, prog{"structure:service", "only-extends-included-r", &idl.Program{Files: []*idl.File{of, bf}}, true})
+		sf := mkf("samefile.thrift", "only.same")
+		s0 := &idl.Service{Name: "SB", Functions: []*idl.Function{{Name: "f"}}}
+		sf.Add(s0)
+		sf.Add(&idl.Service{Name: "SD", Extends: s0})
+		out = append(out, prog{"structure:service", "extends-same-file-empty", &idl.Program{Files: []*idl.File{sf}}, false})
+		ef := mkf("emptysvc.thrift", "only.empty")
+		ef.Add(&idl.Service{Name: "Nothing"})
+		out = append(out, prog{"structure:service", "only-empty-service", &idl.Program{Files: []*idl.File{ef}}, false})
+		nf := mkf("onlyenum.thrift", "only.enum")
+		nf.Add(&idl.Enum{Name: "OE", Values: []*idl.EnumValue{{Name: "A"}}})
+		out = append(out, prog{"structure:file", "only-enum", &idl.Program{Files: []*idl.File{nf}}, false})
+		cf := mkf("onlyconst.thrift", "only.const")
+		cf.Add(&idl.Const{Name: "OC", Type: idl.T(idl.String), Value: idl.VS("x")})
+		out = append(out, prog{"structure:file", "only-const", &idl.Program{Files: []*idl.File{cf}}, false})
+		tf := mkf("onlytypedef.thrift", "only.td")
+		tf.Add(&idl.Typedef{Name: "OT", Type: idl.MapOf(idl.T(idl.String), i32)})
+		out = append(out, prog{"structure:file", "only-typedef", &idl.Program{Files: []*idl.File{tf}}, false})
+		xf := mkf("onlyexc.thrift", "only.exc")
+		xf.Add(&idl.Struct{Cat: "exception", Name: "OX"})
+		out = append(out, prog{"structure:file", "only-empty-exception", &idl.Program{Files: []*idl.File{xf}}, false})
+		zf := mkf("nothing.thrift", "only.nothing")
+		out = append(out, prog{"structure:file", "no-definitions", &idl.Program{Files: []*idl.File{zf}}, false})
+	}
 	// services: extends across files two levels, throws of the same type twice
 	{
 		b0 := mkf("b0.thrift", "ext.b0")
@@ -403,6 +435,22 @@ func main() {
 		}
 		if thorough {
 			add(p.family, p.variant, p.p, "fastgo", nil, false)
+		}
+	}
+	// (2b) constants and defaults: every way of writing a value (shared with C06),
+	// each alone (so a failure names the way) and all accepted ones together
+	{
+		n := len(universe.Ways(universe.NewConstEnv("c01c")))
+		for i := 0; i < n; i++ {
+			e := universe.NewConstEnv("c01c")
+			w := universe.Ways(e)[i]
+			universe.Attach(e.Main, w)
+			p := &idl.Program{Files: []*idl.File{e.Main, e.Inc}}
+			add("consts", w.Name, p, "go", nil, true)
+			if thorough {
+				add("consts", w.Name, p, "fastgo", nil, true)
+				add("consts", w.Name, p, "go", []string{"value_type_in_container", "enum_as_int_32"}, true)
+			}
 		}
 	}
 	// (3) structure programs
@@ -543,7 +591,7 @@ func classOf(in *itemInfo) string {
 	switch {
 	case in.family == "kernel" || in.family == "pairs" || in.family == "kernel-wide":
 		return "kernel:" + in.cfg
-	case strings.HasPrefix(in.family, "structure"):
+	case strings.HasPrefix(in.family, "structure") || in.family == "consts":
 		return in.family + ":" + in.variant
 	}
 	// name families: the name is the cause, the style a modifier
